@@ -304,12 +304,12 @@ impl<'t> DocGen<'t> {
                     self.feats.non_ascii = true;
                     // includes Latin-1 text whose bytes form well-formed UTF-8 sequences ("Â°" = C2 B0): only the whole
                     // file decides between UTF-8 and Latin-1, never a prefix of it
-                    s.push_str(self.t.pick_str(&["ü", "°C", "Größe", "µ", "日本", "Ω", "é", "\u{a0}", "Â°", "Ã¤", "Ã¼ber", "ÿþ"]));
+                    s.push_str(self.t.pick_str(&["ü", "°C", "Größe", "µ", "日本", "Ω", "é", "\u{a0}", "Â°", "Ã¤", "Ã¼ber", "ÿþ", "\u{feff}", "\u{fffe}", "\u{ffff}", "\u{d7ff}", "\u{e000}", "\u{80}", "\u{9f}", "þÿ"]));
                 }
                 7 if self.opts.unicode => {
                     self.feats.non_ascii = true;
                     self.feats.non_bmp = true;
-                    s.push_str(self.t.pick_str(&["😀", "𝄞", "\u{10ffff}"]));
+                    s.push_str(self.t.pick_str(&["😀", "𝄞", "\u{10ffff}", "\u{10000}", "\u{1fffe}"]));
                 }
                 8 if self.opts.escapes => {
                     self.feats.escapes = true;
